@@ -1,6 +1,8 @@
 CONSTANT MaxEvol = 3
 CONSTANT SlotsPerKes = 4
 CONSTANT OpPeriod = 2
+CONSTANT MaxHist = 2
+CONSTANT MixedOffs = FALSE
 INIT Init
 NEXT Next
 INVARIANT HonestValid
@@ -10,3 +12,6 @@ INVARIANT BodyBound
 INVARIANT Covering
 INVARIANT InsiderCaught
 INVARIANT InsiderExact
+INVARIANT HistoryIrrelevant
+INVARIANT ReplayNeedsCold
+INVARIANT AcceptedPins
